@@ -171,10 +171,13 @@ func Gen(store string) func(t *rapid.T) *Case {
 		if long {
 			kinds = append(kinds, "append", "append", "append", "append", "append", "append")
 		}
+		if c.Store == "durable" {
+			kinds = append(kinds, "appendlost")
+		}
 		for i := 0; i < n; i++ {
 			op := Op{K: rapid.SampledFrom(kinds).Draw(t, "k")}
 			switch op.K {
-			case "append", "append2":
+			case "append", "append2", "appendlost":
 				op.Type = genType(t)
 				op.Data = ws(t) + genJSON(t, 3)
 				if c.Store == "durable" {
